@@ -114,3 +114,6 @@ impl<K, V> BTreeMap<K, V> {
 }
 // String::clone / to_string on a String: an equal value
 #[verifier::external_body] pub fn string_to_string(s: &String) -> (r: String) ensures r == *s { unimplemented!() }
+
+// `vec![e; n]`: e is evaluated ONCE and cloned n times   [std semantics]
+#[verifier::external_body] pub fn vec_from_elem<T: Copy>(e: T, n: usize) -> (r: Vec<T>) ensures r@.len() == n, forall|i: int| 0 <= i < n ==> #[trigger] r@[i] == e { unimplemented!() }
